@@ -47,7 +47,7 @@ def main(argv=None):
     specs = [(k, m, n, dict(o, pid=a.prop, tier=a.tier, seed=seed, timeout_ms=(60000 if a.tier == 'thorough' else 10000)))
              for (k, m, n, o) in specs]
     ctx = mp.get_context('fork')
-    with ctx.Pool(min(a.jobs, max(1, len(specs)))) as pool:
+    with ctx.Pool(min(a.jobs, max(1, len(specs))), maxtasksperchild=1) as pool:   # a fresh z3 context per unit
         results = pool.map(units.run_unit, specs, chunksize=1)
     return finish(a, P, results, seed, t0)
 
